@@ -147,6 +147,7 @@ pub struct EvalOpts {
     pub ext_str: Vec<(String, String)>,
     pub ext_code: Vec<(String, Vec<u8>)>,
     pub trace_depth: bool,
+    pub load_only: bool,
 }
 
 impl EvalOpts {
@@ -160,6 +161,7 @@ impl EvalOpts {
             ext_str: Vec::new(),
             ext_code: Vec::new(),
             trace_depth: false,
+            load_only: false,
         };
         for a in args {
             let (k, v) = a.split_once('=')?;
@@ -169,6 +171,7 @@ impl EvalOpts {
                 "traces" => o.traces = v == "1",
                 "gc" => o.gc_period = Some(v.parse().ok()?),
                 "tracedepth" => o.trace_depth = v == "1",
+                "load" => o.load_only = v == "1",
                 _ => {
                     if let Some(p) = k.strip_prefix("file:") {
                         let p = String::from_utf8(hex_dec(p)?).ok()?;
@@ -218,6 +221,9 @@ pub fn eval_source(src: &[u8], o: &EvalOpts) -> String {
         Ok(t) => t,
         Err(e) => return load_err(&e),
     };
+    if o.load_only {
+        return "ok".into();
+    }
     let res = program.eval_value(&thunk, &mut cb);
     let mut out = match res {
         Err(e) => {
